@@ -350,6 +350,8 @@ class Typestate:
         self.ft = FieldTypes(prog, exclude=exclude)
         self.ft.only = only
         self.relevant = None
+        self.notes = []
+        self.prepass_fallback = set()
         self._fts = {}
 
     def site_keys(self):
@@ -375,6 +377,7 @@ class Typestate:
         insp = defaultdict(set)
         succ = defaultdict(set)
         I = self.I
+        self.prepass_fallback = set()
         for S in STATES:
             for mi in self.methods.get(S, []):
                 I.inspected = set()
@@ -403,7 +406,10 @@ class Typestate:
                     try:
                         outs += I.run(mi.body, a2, init2)
                     except (PathLimit, Unsupported) as e:
-                        self.errors.append("prepass %s [%s]: %s" % (mi.body.short, hv, e))
+                        # relevance could not be computed for this state: track every leaf (sound,
+                        # only costs valuations)
+                        self.prepass_fallback.add(S)
+                        self.notes.append("prepass %s [%s]: %s -> all leaves of %s tracked" % (mi.body.short, hv, e, S))
                 insp[S].add(wildcard((("f", "inner"), ("f", "call"), ("$v",))))
                 for (root, path) in I.inspected:
                     if root == FLOW or (root == own_root and mi.recv == "own"):
@@ -429,6 +435,18 @@ class Typestate:
                     if not add <= R[S]:
                         R[S] |= add
                         changed = True
+        # states whose relevance is unknown track everything; so do their predecessors along
+        # converting edges (their leaves flow into the unknown state)
+        changed = True
+        while changed:
+            changed = False
+            for S in STATES:
+                for S2, inherit in succ[S]:
+                    if inherit and S2 in self.prepass_fallback and S not in self.prepass_fallback:
+                        self.prepass_fallback.add(S)
+                        changed = True
+        for S in self.prepass_fallback:
+            R[S] = None
         self.relevant = R
         self.succ_static = succ
         self._fts = {}
